@@ -16,6 +16,11 @@ Definition C39_filter_run (i : C39_filter_in) : C39_filter_out :=
 Definition C39_contains_run (i : bytes * N) : outcome bool :=
   term_filter_maybe_contains (fst i) (snd i).
 
+(* ---- tokenizer: code points after NFKC + to_lowercase, the alphanumeric ones among them ---- *)
+Definition C39_tok_in := (list N * list N)%type.
+Definition C39_tok_run (i : C39_tok_in) : list (list N) :=
+  tokenize_norm (fun c => existsb (N.eqb c) (snd i)) (fst i).
+
 (* ---- sketch ---- *)
 Definition entry_t := (N * N * bytes * list N * N * N * N)%type.
 Definition entry_to_t (e : entry) : entry_t :=
